@@ -373,6 +373,15 @@ func (ex *Exec) newTimer(d int64, period int64, ch *Chan, fn func(), what string
 	if d < 0 {
 		t.deadline = ex.Clock
 	}
+	if d <= 0 && period == 0 && fn == nil && ch != nil && len(ch.buf) == 0 {
+		// Go >= 1.23: a channel timer that is already due is observed as
+		// expired by the very next receive/select on its channel (the runtime
+		// runs due channel timers when the channel is inspected)
+		t.active = false
+		ex.TimerFires++
+		ch.buf = append(ch.buf, ex.timeValue(ex.Clock))
+		return t
+	}
 	ex.timers = append(ex.timers, t)
 	return t
 }
